@@ -167,8 +167,12 @@ def handle (j : Json) : Except String Json := do
       ("mac", Json.num (Int.ofNat mac)), ("literal", optNatToJson lit),
       ("literal_ok", Json.bool (match lit with | some l => l == mac | none => true))]
   | "merge_spec" =>
+    -- `n` operands of one shape: per-operand slice (what operation_count reports) and the scalar
+    -- operations of the whole n-ary merge (literal enumeration of `mergeNaryNest`)
     let shape ← getNatList j "shape"
-    pure <| Json.mkObj [("mac", Json.num (Int.ofNat (macMerge shape)))]
+    let n ← getNat j "n"
+    pure <| Json.mkObj [("mac", Json.num (Int.ofNat (macMerge shape))),
+      ("nary", Json.num (Int.ofNat (opsMergeNary n shape)))]
   | "energy" =>
     let c ← costsOfJson (← j.getObjVal? "costs")
     let pl : Placement := { wMem := Mem.ofString (← getStr j "weights_on_memory"),
